@@ -487,6 +487,49 @@ theorem fallback_full_text (env : Env) (st : St) (obj src : Obj) :
   obtain ⟨out, ho, hb⟩ := render_fallback_full_text env st obj src pd e d h1 h2 h3 h4
   simp [ho, bodyOf, hb]
 
+theorem getDocstring_found (st : St) (d : Text) (src : Obj) :
+    ∀ l, getDocstring st l = .found d src → (st.objs src).docstring = some d ∧ src ∈ l
+  | [], h => by simp [getDocstring] at h
+  | s :: rest, h => by
+    unfold getDocstring at h
+    split at h
+    · rename_i d' hd
+      split at h
+      · simp only [DocLookup.found.injEq] at h
+        obtain ⟨rfl, rfl⟩ := h
+        exact ⟨hd, by simp⟩
+      · simp at h
+    · obtain ⟨a, b⟩ := getDocstring_found st d src rest h
+      exact ⟨a, by simp [b]⟩
+
+/-- `Docstring.fallback_uses_source_text`: an object that INHERITS its docstring (`get_docstring`
+finds the text `d` on `src`, possibly another object in another module) and whose rendering fails
+shows the entire text `d` of `src` — `format_docstring` hands `source`, not `obj`, to
+`safe_to_stan` — and whatever this call reports is reported against `src`. -/
+theorem fallback_uses_source_text (env : Env) (st : St) (obj src : Obj) (d : Text) (pd : PD) (e : Exc)
+    (hg : getDocstring st (obj :: env.inherited obj) = .found d src)
+    (hpd : ((ensureParsed env st obj).2.objs obj).parsed = some pd)
+    (hraise : pdToStan env pd = .raises e) :
+    bodyOf (formatDocstring env st obj).1 = some (.pre d) ∧
+    ∃ new, (formatDocstring env st obj).2.reports = st.reports ++ new ∧ ∀ r ∈ new, r.obj = src := by
+  have hsrc : (ensureParsed env st obj).1 = some src := by
+    cases hp : (st.objs obj).parsed <;> simp [ensureParsed, hg, hp]
+  have hso : sourceOf env st obj = src := by simp [sourceOf, hg]
+  refine ⟨?_, ?_⟩
+  · obtain ⟨out, ho, hb⟩ := render_fallback_full_text env st obj src pd e d hsrc hpd hraise
+      (getDocstring_found st d src _ hg).1
+    simp [ho, bodyOf, hb]
+  · obtain ⟨new, hn, hp⟩ := (doc_spec env st obj).1.reports
+    exact ⟨new, hn, fun r hr => by rw [← hso]; exact (hp r hr).1⟩
+
+/-- the inherited case concretely: object 1 has no docstring and inherits object 0's; `to_stan` fails;
+the body of object 1 is object 0's text and the report names object 0 -/
+example :
+    bodyOf (formatDocstring { envCx with inherited := fun o => if o = 1 then [0] else [],
+                                         toStan := fun _ => .raises (.other 3) }
+              ⟨fun o => if o = 0 then ⟨some ['x', 'y'], none, none⟩ else ⟨none, none, none⟩, [], [], false⟩ 1).1
+      = some (.pre ['x', 'y']) := by decide
+
 /-- … and that failure is reported against the source object, provided the object was not already
 reported (`reportErrors` files at most one group per object and section) -/
 theorem render_failure_reported (env : Env) (st : St) (obj src : Obj) (pd : PD) (e : Exc)
